@@ -51,16 +51,19 @@ PROPS = {
     },
     'C02': {
         'repotests': True,
-        'mc_quick': ['MC_quick_clean.cfg'], 'mc_thorough': MC_THOROUGH,
+        'mc_quick': ['MC_quick_clean.cfg', ('Backup_q.cfg', 300, 'FBBackup.tla')],
+        'mc_thorough': MC_THOROUGH + [('Backup.cfg', 900, 'FBBackup.tla')],
         'title': 'Rollback',
         'units': [('swap', 1500, 20000), ('subcache', 500, 6000), ('crash', 2000, 40000), ('forcrash', 800, 15000), ('foreign', 400, 6000), ('selfnest', 600, 8000), ('bulk', 3, 20),
                   ('regress', 0, 0)],
         # "... or while the cache file is being written": an OSError injected into the cache open / write of a
         # build whose function returned normally, on histories with and without a cache directory of its own
+        'backupbind': (16700, 40000),     # files moved aside and restored through the real FileBackups (FBBackup!Name)
         'fault_units': (240, 3000, 0, 0), 'fault_profile': ['subcache', 'crash'],
         'fault_calls': ['gzip.open:w', 'gzip.write'],
         'owned': {'ExcIdentity', 'RollbackRestores', 'ExceptionPropagates', 'ExceptionClassMatches',
-                  'TempDirRemoved', 'ForeignUntouched', 'CacheReplacedOnlyOnSuccess', 'FaultSurfaces'},
+                  'TempDirRemoved', 'ForeignUntouched', 'CacheReplacedOnlyOnSuccess', 'FaultSurfaces',
+                  'SlotName', 'SlotNamesDistinct', 'SlotSequence', 'RestoreAll', 'BackupMoves'},
         'after_rollback_all': True,      # "a subsequent build behaves exactly as if the failed build had never run"
         'nontrivial': lambda st, sc: st['rollback'] > 0 and st['commit'] > 0,
         'rule': 'crash point = every position of the root function (and uncaught nested failures) x history '
@@ -206,7 +209,8 @@ PROPS = {
     },
     'C09': {
         'mc_quick': [(c, 300, 'FBConcMC.tla') for c in ('Conc_A.cfg', 'Conc_B.cfg', 'Conc_C.cfg', 'Conc_D.cfg',
-                                                         'Conc_Ds.cfg', 'Conc_E.cfg')], 'sim': None,
+                                                         'Conc_Ds.cfg', 'Conc_E.cfg')]
+        + [('Backup_q.cfg', 300, 'FBBackup.tla')], 'sim': None,
         'title': 'Thread safety',
         'thread_units': (150, 1500, 10, 0, 3, 12),   # base histories q/t, single preemptions per par q/t (0 = all), pairs q/t
         'full_pairs': (12, 150),                     # two-thread histories whose (k1, k2) preemption pairs are all enumerated
